@@ -13,7 +13,25 @@ TBR = "func_adl/type_based_replacement.py"
 
 FS = "func_adl/ast/function_simplifier.py"
 
+UT = "func_adl/util_types.py"
+
 MUTANTS = {
+    "C08": [
+        {"name": "binop-float-rule-dropped", "edits": [(TBR, "            elif (t_left == float) or (t_right == float):\n                self._found_types[node] = float\n                self._found_types[t_node] = float\n            elif isinstance(node.op, ast.Div):", "            elif isinstance(node.op, ast.Div):")]},
+        {"name": "div-int", "edits": [(TBR, "            elif isinstance(node.op, ast.Div):\n                self._found_types[node] = float\n                self._found_types[t_node] = float", "            elif isinstance(node.op, ast.Div) and False:\n                self._found_types[node] = float\n                self._found_types[t_node] = float")]},
+        {"name": "selectmany-not-unwrapped", "edits": [(OS_, "            function_call(\"SelectMany\", [n_stream.query_ast, n_ast]),\n            unwrap_iterable(rtn_type),", "            function_call(\"SelectMany\", [n_stream.query_ast, n_ast]),\n            rtn_type,")]},
+        {"name": "first-returns-iterable", "edits": [(TBR, "    def First(self) -> StreamItem:\n        return self.item_type  # type: ignore", "    def First(self) -> StreamItem:\n        return Iterable[self.item_type]  # type: ignore")]},
+        {"name": "resolve-ignores-at-class", "edits": [(UT, "        s = build_type_dict_from_type(context_type, at_class)", "        s = build_type_dict_from_type(context_type, None)")]},
+        {"name": "compare-any", "edits": [(TBR, "            t_node = self.generic_visit(node)\n            self._found_types[node] = bool\n            self._found_types[t_node] = bool\n            return t_node\n\n        def visit_IfExp", "            t_node = self.generic_visit(node)\n            self._found_types[node] = bool if len(node.ops) == 1 and not isinstance(node.ops[0], ast.NotEq) else Any\n            self._found_types[t_node] = self._found_types[node]\n            return t_node\n\n        def visit_IfExp")]},
+        {"name": "generic-crash-again", "edits": [(UT, "    if get_origin(r) is typing.Generic:\n        # `class C(Generic[T])` - there is nothing to inherit from\n        return Any  # type: ignore\n", "")]},
+        {"name": "concrete-subclass-any-again", "edits": [(UT, "            if inherited is not Any:\n                return build_type_dict_from_type(inherited, at_class)\n", "")]},
+        {"name": "where-accepts-int", "edits": [(OS_, "        if rtn_type != bool:", "        if rtn_type not in (bool, int):")]},
+        {"name": "dict-key-type-first-field", "edits": [(TBR, "                self._found_types[node] = dc_types[_slice]\n", "                self._found_types[node] = list(dc_types.values())[0]\n")]},
+        {"name": "second-typevar-first", "edits": [(UT, "    for a in zip(generic_type.__parameters__, get_args(t)):\n        d[a[0].__name__] = a[1]", "    for a in zip(generic_type.__parameters__, get_args(t)):\n        d[a[0].__name__] = get_args(t)[0]")]},
+        {"name": "subscript-keeps-iterable", "edits": [(TBR, "                inner_type = unwrap_iterable(self.lookup_type(t_node.value))\n", "                inner_type = self.lookup_type(t_node.value)\n")]},
+        {"name": "nested-select-item-not-wrapped", "edits": [(TBR, "                return call_node, Iterable[r.item_type]  # type: ignore", "                return call_node, r.item_type  # type: ignore")]},
+        {"name": "attr-field-first", "edits": [(TBR, "                self._found_types[node] = dc_types[node.attr]\n", "                self._found_types[node] = dc_types[sorted(dc_types)[0]]\n")]},
+    ],
     "C07": [
         {"name": "find-keyword-first", "edits": [(TBR, "    for kw in keywords:\n        if kw.arg == name:", "    for kw in keywords:\n        if kw.arg == name or len(keywords) == 1:")]},
         {"name": "default-from-previous-param", "edits": [(TBR, "                elif param.default is not param.empty:\n                    a = as_literal(param.default)", "                elif param.default is not param.empty:\n                    a = as_literal(prev_default if prev_default is not None else param.default)"), (TBR, "    for param in sig.parameters.values():\n        # The stream operators", "    prev_default = None\n    for param in sig.parameters.values():\n        # The stream operators"), (TBR, "            i_arg += 1\n", "            i_arg += 1\n            prev_default = param.default if param.default is not param.empty and isinstance(param.default, float) else None\n")]},
